@@ -81,6 +81,7 @@ type Step struct {
 	Type string // fresh: type name (pointer to struct)
 	Args []*CExpr
 	When *CExpr
+	As   string // invoke f(args) as name: the closure's first result is bound to name for the ensures clauses (only without when/star)
 	Star bool // invoke*: the function value may be invoked any number of times (caller-side `call ... invariant` clauses are the loop invariants)
 	Src  string
 	File string
@@ -412,12 +413,16 @@ func (c *Contracts) LoadFile(path string) error {
 			if i := strings.Index(rest, " when "); i >= 0 {
 				callSrc, whenSrc = rest[:i], rest[i+6:]
 			}
+			asName := ""
+			if i := strings.Index(callSrc, " as "); i >= 0 {
+				callSrc, asName = callSrc[:i], strings.TrimSpace(callSrc[i+4:])
+			}
 			ce, err := ParseCExpr(callSrc)
 			if err != nil || ce.Op != "call" {
 				c.errf(path, ln, "invoke needs f(args): %v", err)
 				continue
 			}
-			stp := &Step{Kind: "invoke", Name: ce.Name, Args: ce.Args, Src: rest, File: path, Line: ln, Star: word == "invoke*"}
+			stp := &Step{Kind: "invoke", Name: ce.Name, Args: ce.Args, Src: rest, File: path, Line: ln, Star: word == "invoke*", As: asName}
 			if whenSrc != "" {
 				we, err := ParseCExpr(whenSrc)
 				if err != nil {
